@@ -341,6 +341,34 @@ func checkAtomicSection(e *Env, f *ssa.Function) {
 		e.R.Fail(rule, construct, e.fpos(f), "guarded state accessed outside any critical section (see C14.R2)")
 		return
 	}
+	// calls to other operations of the same map are critical sections of their own
+	delegated := core.Calls(f, func(n string, c ssa.CallInstruction) bool {
+		return strings.HasPrefix(n, "pkg/sync.Map.") && len(f.Params) > 0 && core.AccessPath(core.Arg(c, 0)) == core.AccessPath(f.Params[0])
+	})
+	if len(delegated) > 0 && name != "pkg/sync.Map.Range" {
+		// direct sections combined with separate atomic calls: only sound if every writing section re-reads (checked below);
+		// a delegated mutator next to direct accesses is always a composition of several atomic steps
+		for _, dc := range delegated {
+			if mapMutators[core.CalleeName(dc)] || core.CalleeName(dc) == "pkg/sync.Map.ReplaceWithFunc" {
+				e.R.Fail(rule, construct, e.pos(dc.(ssa.Instruction)), "the operation combines its own critical section with a separate mutating map operation ("+core.CalleeName(dc)+")")
+				return
+			}
+		}
+		for _, k := range order {
+			for _, w := range secs[k].writes {
+				ok := false
+				for _, rd := range secs[k].reads {
+					if core.Dominates(rd.Instr, w.Instr) {
+						ok = true
+					}
+				}
+				if !ok {
+					e.R.Fail(rule, construct, e.pos(w.Instr), fmt.Sprintf("check-then-act: the state is inspected through a separate operation (%s) and the section acquired at %s then writes Map.data without re-reading it", core.CalleeName(delegated[0]), k))
+					return
+				}
+			}
+		}
+	}
 	if name == "pkg/sync.Map.Range" {
 		// listed exception: weakly consistent iteration; the lock is dropped around each callback by design (documented on the method).
 		// what is required instead: every step of the iteration itself happens under the read lock (R2) and callbacks obey R4.
